@@ -92,6 +92,21 @@ def run_case(spec):
     return res
 
 
+def views_agree(w, res, where, steps_done):
+    """list / status / stats / numwatchers describe the same set *at any instant* (no reference involved)"""
+    snap = w.snapshot(with_stats=False)
+    lst = sorted(x.lower() for x in (snap['watchers'] or []))
+    sts = sorted(x.lower() for x in (snap['statuses'] or {}))
+    mid = w.req('stats')
+    infos = (w.reply(mid) or {}).get('infos')
+    stt = sorted(x.lower() for x in infos) if isinstance(infos, dict) else None
+    nw = snap['numwatchers']
+    res.obs['instant_view_checks'] += 1
+    if not (lst == sts == stt and nw == len(lst)):
+        res.violation('C15/views-disagree-mid-operation', '%s: list %s, status %s, stats %s, numwatchers %s'
+                      % (where, lst, sts, stt, nw), steps=steps_done)
+
+
 def coherent(w, ref, res, where, steps_done):
     snap = w.snapshot(with_stats=False)
     lst = snap['watchers']
@@ -123,6 +138,7 @@ def coherent(w, ref, res, where, steps_done):
 @gen.coroutine
 def _run(w, h, d, res):
     k = w.kernel
+    k.beh_for = lambda argv, n: {15: ('die', 0.1)}       # a stop takes 0.1 s: rm/stop have a window
     cfg = os.path.join(d, 'circus.ini')
     write_cfg(cfg, h['init'])
     arb = w.load_arbiter(cfg)
@@ -172,7 +188,17 @@ def _run(w, h, d, res):
             props = {'name': name, 'waiting': True}
             if nostop:
                 props['nostop'] = True
-            rep = yield w.call('rm', **props)
+            if len(done) % 3 == 0:
+                # not waiting: look at the directory while the removal is still stopping the workers
+                props['waiting'] = False
+                mid = w.req('rm', **props)
+                views_agree(w, res, 'right after non-waiting rm %r' % name, list(done))
+                yield w.advance(0.03)
+                views_agree(w, res, '30 ms into rm %r' % name, list(done))
+                yield w.settle(60)
+                rep = w.reply(mid)
+            else:
+                rep = yield w.call('rm', **props)
             yield w.settle(60)
             ok = isinstance(rep, dict) and rep.get('status') == 'ok'
             sig.append(('rm', existed, ok))
